@@ -150,6 +150,14 @@ func TestWorker(t *testing.T) {
 				fmt.Fprintf(os.Stderr, "DBG rounds=%d execs=%d\n", dbgRounds, st.ExecsTotal)
 			}
 			emit("S", st)
+			if (memExceeded || rssBytes() > memSoft) && os.Getenv("VH_NO_RESTART") == "" && *fOut != "" {
+				// ask the driver for a fresh process: it continues with the scenarios not done yet
+				emit("M", map[string]any{"rss_mb": rssBytes() >> 20})
+				out.Flush()
+				os.Stdout = realStdout
+				os.Exit(75)
+			}
+			memExceeded = false
 		}
 	}
 	if def.e2 != nil && !*fList {
